@@ -17,7 +17,7 @@ func vMember(zr *zip.Reader, name, content string) {
 // percent-decoded, one chapter per declared readable part, each with its own text.
 //
 //symgo:harness prop=C18 kernel=K1-epub-package-from-xml noreplay=1
-//symgo:desc archive members given as texts (zip decompression cut: member content model); mimetype, META-INF/container.xml pointing to OEBPS/content.opf or to content.opf at the root (enumerated); manifest of three XHTML chapters (one with a percent-encoded space, one with a percent-encoded '#' in its href, one in a sub-directory), a nav document, an NCX and a stylesheet, listed in an order different from the spine; spine = enumerated permutation of the three chapters, optionally preceded by an idref that is not in the manifest; archive order reversed or not (enumerated); an unreferenced decoy XHTML member: Reader.init (DRM check, container, OPF, chapters; real tokeniser, modelled reflection walk, real HTML parser) yields 3 chapters in spine order, each with its own href and body text; the decoy's text appears in no chapter; EPUB 2 (version 2.0, NCX only) or EPUB 3 (enumerated)
+//symgo:desc archive members given as texts (zip decompression cut: member content model); mimetype, META-INF/container.xml pointing to OEBPS/content.opf or to content.opf at the root (enumerated); manifest of three XHTML chapters (one with a percent-encoded space, one with a percent-encoded '#' in its href, one in a sub-directory; hrefs plain or with "./" and "dir/../dir/" dot segments, enumerated), a nav document, an NCX and a stylesheet, listed in an order different from the spine; spine = enumerated permutation of the three chapters, optionally preceded by an idref that is not in the manifest; archive order reversed or not (enumerated); an unreferenced decoy XHTML member: Reader.init (DRM check, container, OPF, chapters; real tokeniser, modelled reflection walk, real HTML parser) yields 3 chapters in spine order, each with its own href and body text; the decoy's text appears in no chapter; EPUB 2 (version 2.0, NCX only) or EPUB 3 (enumerated)
 func H_C18_epub_package_from_xml() {
 	dir := "OEBPS/"
 	if vAnyIntIn(0, 1) == 1 {
@@ -26,6 +26,10 @@ func H_C18_epub_package_from_xml() {
 	v3 := vAnyIntIn(0, 1) == 1
 	ids := []string{"ch-z", "ch-a", "ch-m"}
 	hrefs := []string{"z%20one.xhtml", "a%231.xhtml", "text/m.xhtml"} // as written in the manifest
+	if vAnyIntIn(0, 1) == 1 {
+		// the same parts named by relative references with dot segments
+		hrefs = []string{"./z%20one.xhtml", "a%231.xhtml", "text/../text/m.xhtml"}
+	}
 	files := []string{"z one.xhtml", "a#1.xhtml", "text/m.xhtml"}     // as stored in the archive (relative to the package)
 	order := []int{0, 1, 2}
 	for i := 0; i < 2; i++ {
